@@ -723,14 +723,18 @@ def c15_instances(tier):
 
 
 def c14_instances(tier):
-    I = [simple_inst("train_instance", "c14_train__b2_2to1_i2", "2, 2, 1, 2", "Model forward/backward/update loop",
-                     "each iteration returns the current loss and moves every parameter by -lr x exact gradient; nothing leaks between iterations",
-                     "one dense layer 2->1 (no activation), mse, batch 2, 2 iterations with fresh symbolic batches; lr in {1,2,1/2}", unwind=14, timeout=3000, mem_gb=24)]
+    I = [simple_inst("train_instance", "c14_fb2__b1_1to1", "1, 1, 1, 2, 0.5, 1", "Model::forward / Model::backward on ONE model, two iterations",
+                     "each iteration returns the loss (sum of the cost array) of the current parameters on the CURRENT batch; nothing of the "
+                     "previous iteration's output is used",
+                     "dense 1->1 (no activation), mse, batch 1, 2 iterations with fresh symbolic batches, no update in between", unwind=12, timeout=1500, mem_gb=30)]
     if tier == "thorough":
-        I += [simple_inst("train_instance", "c14_train__b1_1to2_i3", "1, 1, 2, 3", "Model forward/backward/update loop", "as above", "dense 1->2, batch 1, 3 iterations",
-                          unwind=14, timeout=3000, mem_gb=24),
-              simple_inst("train_instance", "c14_train__b2_1to1_i3", "2, 1, 1, 3", "Model forward/backward/update loop", "as above", "dense 1->1, batch 2, 3 iterations",
-                          unwind=14, timeout=3000, mem_gb=24)]
+        I += [simple_inst("train2_instance", "c14_train2__b1_1to1_i2", "1, 1, 1, 2, 0.5", "forward / backward / GradientDescent::update loop",
+                          "each iteration returns the current loss and moves every parameter by -lr x exact gradient of that loss; parameters are "
+                          "clean fresh leaves afterwards (nothing leaks into the next iteration)",
+                          "dense 1->1, mse, batch 1, lr 1/2, 2 iterations; the optimizer is applied to layer.parameters() directly "
+                          "(Model::update's flat_map plumbing is NOT covered)", unwind=10, timeout=3000, mem_gb=40),
+              simple_inst("train_instance", "c14_fb2__b2_2to1", "2, 2, 1, 2, 0.5, 1", "Model::forward / Model::backward on ONE model, two iterations",
+                          "as above", "dense 2->1, batch 2", unwind=12, timeout=2400, mem_gb=30)]
     return I
 
 
@@ -831,5 +835,20 @@ PROPS.update({
             "level_note": _GEN_NOTE, "explanation": "f32 re-verification of the kernels (unbounded) and a cross-section of instances (bounded).",
             "not_decided": ["agreement with the double-precision reference to within single-precision rounding"]},
 })
-for _k in ("C16", "C09", "C12", "C08", "C13", "C15", "C18", "C19"):
+PROPS["C14"] = {
+    "level": "model_checking", "kani_groups": ["h_model.rs", "h_ops.rs", "h_elementwise.rs"], "instances": c14_instances,
+    "technique": "bounded Kani instances of the training iteration: forward/backward twice on one Model (quick); full iterations with the "
+                 "optimizer applied to the layer's parameters directly (thorough); Model::update's plumbing not covered",
+    "level_text": "PARTIAL and bounded. Decided per instance: (quick) on one Model object two consecutive forward/backward iterations each return "
+                  "the loss of the current parameters on the current batch; (thorough) two full iterations forward -> backward -> "
+                  "GradientDescent::update move every parameter by -lr x the exact gradient of the current loss (closed form for a linear layer + "
+                  "mse) and leave clean fresh leaves, whatever the first iteration did. NOT decided: Model::update -> Model::parameters "
+                  "(flat_map over Vec<&mut dyn Layer>): CBMC exhausts 30 GB / 10 min on it even for one layer, Verus cannot model it; its three "
+                  "lines are covered by no obligation. The remaining legs of the induction are C13, C15, C01/C02, C10.",
+    "level_note": _GEN_NOTE + "; one dense layer without activation, mse, batch 1-2, learning rate 1/2",
+    "explanation": "Bounded, partial check of the training iteration; see level_text for the uncovered plumbing.",
+    "not_decided": ["Model::update -> Model::parameters (flat_map over dyn Layer) is covered by no obligation",
+                    "no contract over an unbounded sequence of iterations is expressible; 2 iterations are checked"],
+}
+for _k in ("C16", "C09", "C12", "C08", "C13", "C15", "C18", "C19", "C14"):
     NOT_APPLICABLE.pop(_k, None)
